@@ -16,6 +16,7 @@ import (
 
 	"github.com/tetratelabs/wazero"
 	"github.com/tetratelabs/wazero/api"
+	"github.com/tetratelabs/wazero/experimental"
 	"github.com/tetratelabs/wazero/experimental/sock"
 	"github.com/tetratelabs/wazero/sys"
 
@@ -43,7 +44,7 @@ func (c19) Classes() []sim.Class {
 func (c19) Describe() sim.Description {
 	return sim.Description{
 		Level: "exploration",
-		Rule: "tape-generated derivation trees of 8-30 steps by 2-3 simulated clients: each step picks ANY earlier RuntimeConfig/ModuleConfig/FSConfig node and applies a With... method with tape-drawn arguments (overlapping env keys, overriding guest paths, args, names, start functions, stdio, clocks, random source), or instantiates a module with a node (class tree-sock: with a sock configuration in the context). " +
+		Rule: "tape-generated derivation trees of 8-30 steps by 2-3 simulated clients: each step picks ANY earlier RuntimeConfig/ModuleConfig/FSConfig node and applies a With... method with tape-drawn arguments (overlapping env keys, overriding guest paths, args, names, start functions, stdio, clocks, random source), or instantiates a module with a node (class tree-sock: with a sock configuration in the context; that class also grows a tree of experimental/sock Config values with WithTCPListener). " +
 			"Model: persistent values (node = parent's record + delta). After EVERY step, for EVERY node: (1) a structural fingerprint (reflection walk over wazero-owned structs, slices, maps; foreign pointers by identity) equals the one taken at creation; (2) for one tape-chosen ModuleConfig node (all of them at the end) what a guest observes when instantiated with it - args, environ, preopen names, module name, which start functions ran, where stdout goes, wall clock, random bytes - equals the model's record. " +
 			"Non-trivial: some node has >= 2 children derived with the same kind of method, or a key/path override happened; distinct = distinct derivation shapes (parent index, method) sequences",
 		RealCode:    []string{"config.go, fsconfig.go With... methods and clone", "runtime.go InstantiateModule", "internal/sys context construction", "WASI args/environ/prestat/clock/random as the observation channel"},
@@ -282,6 +283,9 @@ func (c19) Run(t *tape.Tape, cfg sim.Config) (res sim.Result) {
 	n1.fc = &fcRec{}
 	n2 := add("rc", wazero.NewRuntimeConfigInterpreter(), -1, "NewRuntimeConfigInterpreter")
 	n2.rc = &rcRec{limit: 65536, features: api.CoreFeaturesV2}
+	if cfg.Class == "tree-sock" {
+		add("sc", sock.NewConfig(), -1, "sock.NewConfig")
+	}
 	var shape []string
 	overrides, fanout := 0, 0
 	childKinds := map[string]int{}
@@ -296,6 +300,17 @@ func (c19) Run(t *tape.Tape, cfg sim.Config) (res sim.Result) {
 		}
 		return true
 	}
+	midChecks := 0
+	duringInstantiate = func() {
+		midChecks++
+		if res.Violation == nil {
+			checkAll("(in the middle of an InstantiateModule call)")
+		}
+	}
+	defer func() {
+		duringInstantiate = nil
+		res.Stat("probe.structural_checks_in_the_middle_of_instantiation", int64(midChecks))
+	}()
 	observe := func(i int, after string) bool {
 		n := nodes[i]
 		if n.kind != "mc" {
@@ -306,9 +321,23 @@ func (c19) Run(t *tape.Tape, cfg sim.Config) (res sim.Result) {
 	for step := 0; step < nsteps && res.Violation == nil; step++ {
 		client := t.Choose(3)
 		pi := t.Choose(len(nodes))
+		if cfg.Class == "tree-sock" && t.Chance(2, 5) {
+			// favour the socket configurations (a chain of several listeners, then siblings)
+			var scs []int
+			for i, n := range nodes {
+				if n.kind == "sc" {
+					scs = append(scs, i)
+				}
+			}
+			pi = scs[len(scs)-1-t.Choose(min(len(scs), 3))]
+		}
 		p := nodes[pi]
 		var how string
 		switch p.kind {
+		case "sc":
+			port := 20000 + step
+			how = fmt.Sprintf("WithTCPListener(127.0.0.1,%d)", port)
+			add("sc", p.val.(sock.Config).WithTCPListener("127.0.0.1", port), pi, how)
 		case "mc":
 			mc := p.val.(wazero.ModuleConfig)
 			rec := p.mc.clone()
@@ -758,6 +787,24 @@ func observeMC(res *sim.Result, rt any, n *node, idx int, after string, stdouts 
 	return true
 }
 
+// duringInstantiate, when set, runs on the embedder's side in the middle of InstantiateModule (from the
+// memory allocator the context carries): what another user of the same configuration values would see
+// at that moment.
+var duringInstantiate func()
+
+type hookMem struct{ buf []byte }
+
+func (m *hookMem) Reallocate(size uint64) []byte {
+	if uint64(cap(m.buf)) < size {
+		nb := make([]byte, size)
+		copy(nb, m.buf)
+		m.buf = nb
+	}
+	m.buf = m.buf[:size]
+	return m.buf
+}
+func (m *hookMem) Free() {}
+
 // newGuestKeepName instantiates the shim keeping the node's own name.
 func newGuestKeepName(mc wazero.ModuleConfig, rt any, withSock, namedBinary bool) (*w.Guest, error) {
 	e := rt.(interface {
@@ -767,6 +814,12 @@ func newGuestKeepName(mc wazero.ModuleConfig, rt any, withSock, namedBinary bool
 	ctx := context.Background()
 	if withSock {
 		ctx = sock.WithConfig(ctx, sock.NewConfig().WithTCPListener("127.0.0.1", 0))
+	}
+	if duringInstantiate != nil {
+		ctx = experimental.WithMemoryAllocator(ctx, experimental.MemoryAllocatorFunc(func(cap, max uint64) experimental.LinearMemory {
+			duringInstantiate()
+			return &hookMem{}
+		}))
 	}
 	var mod api.Module
 	var err error
